@@ -1291,3 +1291,86 @@ Proof.
     apply (EntOk_frame (real_evl w) (real_evl w) g g w w2 e enb EOb); [intros; rewrite Hgx; reflexivity|].
     intros sd0 k0 Ho0. split; [apply Hobj|]. split; [auto|reflexivity].
 Qed.
+
+(* download failed: the object is gone, exists = MISSING *)
+Lemma missing_pres g w e en s k ob p w2 :
+  SCtx g w e en -> s_oid (gs en s) = Some (ostr_k k) -> obj_at w s k = Some ob -> ProvModel.o_exists ob = false ->
+  x_tfile (getx w e s) = None ->
+  weff (tname_world w e s en p) w2 e (ss en s (w_ex (gs en s) ExMissing)) None ->
+  SCtx g w2 e (ss en s (w_ex (gs en s) ExMissing)) /\ maxchg (ss en s (w_ex (gs en s) ExMissing)) = maxchg en /\
+  now (w_st w) <= now (w_st w2) /\ (forall x sd0, x <> e -> getx w2 x sd0 = getx w x sd0) /\ x_tfile (getx w2 e s) = None /\
+  getx w2 e (negb s) = getx w e (negb s).
+Proof.
+  intros [I He Hn Hr] Ho Hob Hdead Htf W2.
+  destruct (tname_world_facts w e s en p Htf) as (TA & TB & TC & TD & TF & TG & TH).
+  set (w0 := tname_world w e s en p) in *. set (en' := ss en s (w_ex (gs en s) ExMissing)).
+  pose proof (i_ents _ _ _ I e en He Hn) as EO.
+  pose proof W2 as (Wcfg & WpL & WpR & Wx & (SA & SB & SC & SD & SJ) & WT). rewrite TB in SA, SB, SC, SD, SJ.
+  assert (Hprov: forall sd0, prov_of w2 sd0 = prov_of w sd0) by (intros; rewrite (weff_prov _ _ _ _ _ sd0 W2); apply TC).
+  assert (Hgx: forall x sd0, getx w2 x sd0 = getx w0 x sd0) by (intros; apply (weff_getx _ _ _ _ _ x sd0 W2)).
+  assert (Hobj: forall sd0 k0, obj_at w2 sd0 k0 = obj_at w sd0 k0) by (intros; unfold obj_at; rewrite Hprov; reflexivity).
+  assert (Hpd: forall sd0 k0, pd (real_evl w2) sd0 k0 = pd (real_evl w) sd0 k0) by (intros; unfold pd, real_evl; rewrite Hprov; reflexivity).
+  assert (Hen2: nth_error (ents (w_st w2)) e = Some en') by (rewrite SA; eapply nth_list_upd_eq; eauto).
+  assert (Hlg: forall sd0, x_lg (getx w2 e sd0) = x_lg (getx w e sd0)).
+  { intros sd0. rewrite Hgx. destruct (Bool.bool_dec sd0 s) as [Heq|Hne]; [subst sd0; exact TG|].
+    assert (sd0 = negb s) by (destruct sd0, s; try reflexivity; contradiction). subst sd0. rewrite TF. reflexivity. }
+  assert (P: prog en en' s (now (w_st w2)) None) by (apply (prog_plain en s (fun y => w_ex y ExMissing)); intros; repeat split; reflexivity).
+  assert (Hmax: maxchg en' = maxchg en) by (unfold en', maxchg, chgv; destruct en as [l r i q], s; reflexivity).
+  destruct (so_full _ _ _ _ _ _ (eo_side _ _ _ _ _ EO s) _ Ho) as (k1 & ob1 & Hk1 & Hob1 & Hk2 & FO).
+  apply ostr_k_inj in Hk1. subst k1. assert (ob1 = ob) by congruence. subst ob1.
+  assert (EO2: EntOk (real_evl w) g w2 e en').
+  { apply (EntOk_side (real_evl w) (real_evl w) g w w2 e en en' s (now (w_st w2)) None EO P).
+    - unfold en'. rewrite gs_ss_same. cbn [w_ex s_otype]. apply (ent_file (real_evl w) g w e en EO s).
+    - exact Hobj.
+    - apply Hlg.
+    - auto.
+    - intros k0 ob0 Ho0 Hob0. assert (k0 = k) by (apply ostr_k_inj; congruence). subst k0. assert (ob0 = ob) by congruence. subst ob0.
+      unfold en'. rewrite gs_ss_same. cbn [w_ex s_ex s_hash s_path].
+      split; [intros X; discriminate|]. split; [right; right; unfold freshP; rewrite Hdead; reflexivity|]. split; [apply (fo_path _ _ _ _ _ _ _ _ FO)|]. split.
+      + intros Hd cs Hcs. destruct (fo_owner _ _ _ _ _ _ _ _ FO Hd cs Hcs) as (P1 & _ & _ & P4 & _). destruct (fo_owner2 _ _ _ _ _ _ _ _ FO Hd cs Hcs) as (_ & P6). auto.
+      + intros Hd Hcs. destruct (fo_mirror _ _ _ _ _ _ _ _ FO Hd Hcs) as (Ml & _). congruence.
+    - intros Hno. congruence. }
+  split.
+  { constructor; [|exact He|exact Hen2|].
+    - unfold Inv. apply (InvP_ext (real_evl w)); [intros sd0; unfold real_evl; rewrite Hprov; reflexivity|].
+      apply (inv_master (real_evl w) (real_evl w) g g w w2 e en' I).
+      + rewrite Wcfg. exact TA.
+      + intros sd0. rewrite Hprov. split; [apply (i_pwf _ _ _ I)|]. split; [apply (ShapeOk_ext w w2 sd0 (Hobj sd0) (i_shape _ _ _ I sd0))|].
+        apply (LogOk_ext (real_evl w) (real_evl w) w w2 sd0 (Hobj sd0)); [auto|apply (i_log _ _ _ I)].
+      + exact He.
+      + exact Hen2.
+      + rewrite SA, length_list_upd. apply Nat.le_refl.
+      + intros x Hx0 Hne. rewrite SA, nth_list_upd_neq by congruence. apply nth_error_None. exact Hx0.
+      + intros x xn Hne Hxn. exists xn. split; [rewrite SA, nth_list_upd_neq by congruence; exact Hxn|apply same_but_prio_refl].
+      + intros x Hne. rewrite SB. reflexivity.
+      + intros Hfl. rewrite SB. apply (i_csc _ _ _ I e en Hn). rewrite <- Hfl. unfold flagged, en'. destruct en as [l r i q], s; reflexivity.
+      + exact SC.
+      + rewrite SD. pose proof (i_clk _ _ _ I). lia.
+      + rewrite Hmax. destruct (i_clke _ _ _ I e en Hn) as (X & _). lia.
+      + intros sd0. rewrite Hlg. destruct (i_clke _ _ _ I e en Hn) as (_ & X). specialize (X sd0). lia.
+      + exact WT.
+      + apply SJ. apply (i_idx _ _ _ I).
+      + intros x sd0 Hne. rewrite Hgx. apply TD. exact Hne.
+      + intros x xn Hne Hx2 Hxn sd0 k0 Hk0. split; [apply Hobj|]. split; [auto|reflexivity].
+      + intros sd0 k0 Hk0 Hlt. rewrite Hprov in Hlt. destruct (i_cov _ _ _ I sd0 k0 Hk0 Hlt) as [(x & xn & Hxn & Hox)|Hp]; [left|right; exact Hp].
+        destruct (Nat.eq_dec x e) as [Hxe|Hxe].
+        * subst x. exists e, en'. split; [exact Hen2|]. assert (xn = en) by congruence. subst xn.
+          destruct P as (Po & _ & Pi & _). destruct (Bool.bool_dec sd0 s) as [Heq|Hne]; [subst sd0; congruence|].
+          assert (sd0 = negb s) by (destruct sd0, s; try reflexivity; contradiction). subst sd0. congruence.
+        * exists x, xn. split; [rewrite SA, nth_list_upd_neq by congruence; exact Hxn|exact Hox].
+      + intros sd0 k0 Hk0 Hlt Hg0. rewrite Hprov in Hlt. destruct (i_cove _ _ _ I sd0 k0 Hk0 Hlt Hg0) as (x & xn & Hxn & Hox).
+        destruct (Nat.eq_dec x e) as [Hxe|Hxe].
+        * subst x. exists e, en'. split; [exact Hen2|]. assert (xn = en) by congruence. subst xn.
+          destruct P as (Po & _ & Pi & _). destruct (Bool.bool_dec sd0 s) as [Heq|Hne]; [subst sd0; congruence|].
+          assert (sd0 = negb s) by (destruct sd0, s; try reflexivity; contradiction). subst sd0. congruence.
+        * exists x, xn. split; [rewrite SA, nth_list_upd_neq by congruence; exact Hxn|exact Hox].
+      + intros sd0 k0 cs0 Hg0. rewrite Hobj. apply (i_ghost _ _ _ I sd0 k0 cs0 Hg0).
+      + exact EO2.
+    - intros sd0 k0 ob0 Ho0 Hob0. rewrite Hobj in Hob0. rewrite Hpd. unfold en' in *.
+      destruct (Bool.bool_dec sd0 s) as [Heq|Hne].
+      + subst sd0. rewrite gs_ss_same in *. cbn [w_ex s_oid] in Ho0. assert (k0 = k) by (apply ostr_k_inj; congruence). subst k0. assert (ob0 = ob) by congruence. subst ob0.
+        right. unfold freshP. rewrite Hdead. reflexivity.
+      + assert (sd0 = negb s) by (destruct sd0, s; try reflexivity; contradiction). subst sd0. rewrite gs_ss_other in *. apply (Hr (negb s) k0 ob0 Ho0 Hob0). }
+  split; [exact Hmax|]. split; [exact SC|]. split; [intros x sd0 Hne; rewrite Hgx; apply TD; exact Hne|].
+  split; [rewrite Hgx; exact TH|rewrite Hgx; exact TF].
+Qed.
